@@ -70,6 +70,17 @@ FORBIDDEN = re.compile(
 os.makedirs(BUILD, exist_ok=True)
 
 
+def sweep_tmp(prefix):
+    """remove <tmp>/<prefix><pid> directories left by harness processes that no longer exist (a harness killed by
+    its watchdog cannot clean up after itself)"""
+    import glob
+    base = os.environ.get("TMPDIR", tempfile.gettempdir())
+    for d in glob.glob(os.path.join(base, prefix + "*")):
+        pid = d[len(os.path.join(base, prefix)):]
+        if pid.isdigit() and not os.path.exists("/proc/" + pid):
+            shutil.rmtree(d, ignore_errors=True)
+
+
 def log(*a):
     print(*a, file=sys.stderr, flush=True)
 
